@@ -102,6 +102,14 @@ def execute(c):
         res = {"onsets": onsets, "base": list(em.base), "contexts": list(em.contexts),
                "resid": [str(h) for h in em.hed_strings],
                "events": [[(str(e.contents), e.start_index, e.end_index) for e in lst] for lst in em.event_list]}
+        # histories on one manager: filtered views are asked for (types removed: the plain tags of this file), then the
+        # manager is looked at again - what it reports for every point must be what it reported before
+        types = sorted({re.split(r"[/ ]", p)[0] for ps in c["plain"].values() for p in ps}) or ["Condition-variable"]
+        v1 = em.unfold_context(remove_types=types)
+        v0 = em.unfold_context()
+        objs = em.get_hed_objs(include_context=True, remove_types=types) if hasattr(em, "get_hed_objs") else None
+        res["after_views"] = {"base": list(em.base), "contexts": list(em.contexts), "resid": [str(h) for h in em.hed_strings],
+                              "unfiltered_new": [str(x) for x in v0[0]], "filtered_new": [str(x) for x in v1[0]], "types": types}
     except Exception as ex:  # noqa
         res = {"raised": "%s: %s" % (type(ex).__name__, str(ex)[:200])}
     return dict(c, res=res)
@@ -160,6 +168,16 @@ def judge(c):
                 prob.append(("residual-lost", "time point %d: plain tag %s missing from the remaining annotation %r" % (j, p, resid)))
         if found(resid) or re.search(r"\b(Onset|Offset|Duration)\b", resid):
             prob.append(("residual-temporal", "time point %d: remaining annotation still holds temporal groups: %r" % (j, resid)))
+    av = res.get("after_views")
+    if av:
+        for fld in ("base", "contexts", "resid"):
+            if av[fld] != res[fld]:
+                k = [i for i, (a, b) in enumerate(zip(res[fld], av[fld])) if a != b][0]
+                prob.append(("view-changes-manager:" + fld, "after asking for views with types %s removed the manager reports %s[%d] = %r, "
+                             "before it was %r" % (av["types"], fld, k, av[fld][k], res[fld][k])))
+        if [re.sub(r"\s+", "", x) for x in av["unfiltered_new"]] != [re.sub(r"\s+", "", x) for x in res["resid"]]:
+            prob.append(("view-changes-manager:unfold", "an unfiltered view asked for after a filtered one gives %s, the remaining "
+                         "annotations are %s" % (av["unfiltered_new"], res["resid"])))
     # process end indices
     n = len(res["onsets"])
     for i, lst in enumerate(res["events"]):
